@@ -1,11 +1,12 @@
 SPECIFICATION Spec
 CONSTANTS
-  Subs = {"a", "b"}
-  Timeouts = {6, 12}
+  Subs1 = {"a", "b"}
+  Timeouts1 = {6}
+  Subs2 = {"c"}
+  Timeouts2 = {12}
   Tick = 5
   UnitMs = 100
   Exact = TRUE
 INVARIANTS TypeOK C30Alive C30Ready CodeMatchesGhosts CodeWithinStatement
 PROPERTY DeadUntilReport
-ACTION_CONSTRAINT Dump
 VIEW View
